@@ -1,6 +1,6 @@
 SPECIFICATION Spec
 CONSTANTS
- Texts = {"ode", "invalid", "v11", "imp_ok", "conn", "parseerr"}
+ Texts = {"ode", "ode2", "invalid", "v11", "imp_ok", "conn", "parseerr"}
  MaxLen = 3
  Insts = {"fresh", "reused"}
  OpsUsed = {"parse", "validate", "analyse", "generate", "print", "resolve", "flatten"}
